@@ -89,6 +89,15 @@ func Generated(quick bool) []*Program {
 			}
 		}
 	}
+	// g3: a fourth sibling inserted under a node that got its third child by plain insertion; the
+	// new child sorts before the existing ones. Writers: direct, committed and aborted transactions.
+	sib := State{0, 1, 0, 0, 0, 0, 1, 1} // /ab, /ac, /ad
+	for wi, w := range []Op{h(2, 7), h(0, 7),
+		{Kind: Txn, Commit: true, StepIn: true, Sub: []Op{h(2, 7), d(1)}},
+		{Kind: Txn, Commit: false, StepIn: true, Sub: []Op{h(2, 7), u(6, 8)}}} {
+		out = append(out, &Program{Name: fmt.Sprintf("g3-%d", wi), Init: sib,
+			Threads: [][]Op{{w}, {rd(Serve, 1), rd(Serve, 7), {Kind: IterAll}, rd(Has, 6)}}})
+	}
 	return out
 }
 
